@@ -88,6 +88,11 @@ pub fn systematic(prop: &str, tier: Tier, seed: u64) -> Vec<Case> {
     match prop {
         "C04" => crate::hostile::systematic(tier == Tier::Thorough, seed),
         "C17" => crate::profiles::systematic_resume(tier == Tier::Thorough, seed),
+        "C05" | "C06" => crate::profiles::systematic_ack_permutations(tier == Tier::Thorough),
+        "C13" => crate::profiles::systematic_termination(tier == Tier::Thorough, seed),
+        "C14" => crate::profiles::systematic_teardown(tier == Tier::Thorough, seed),
+        "C15" => crate::profiles::systematic_cancel(tier == Tier::Thorough, seed),
+        "C16" => crate::profiles::systematic_spurious(tier == Tier::Thorough, seed),
         "C03" => crate::profiles::systematic_framing(tier == Tier::Thorough),
         _ => Vec::new(),
     }
@@ -345,6 +350,15 @@ pub fn judge(prop: &str, sc: &Scenario, aux: Option<&Scenario>) -> Judged {
             j.polls += wr.polls;
             drop(wr);
             viols.extend(oracle::c03(&a, &ar));
+            if aux.is_some() {
+                viols.extend(oracle::c03_reference(&ar, &reference));
+            } else {
+                // symbolic scenarios: the injected packets are known, so what the client observes
+                // is also judged absolutely (chunking-independent framing defects)
+                for x in oracle::c08(&a).into_iter().chain(oracle::streams_check(&a, "C03")).chain(oracle::c05(&a).into_iter().filter(|x| x.class.contains("lost-completion"))) {
+                    viols.push(Violation { property: "C03", class: format!("C03/observed-differs-from-injected/{}", x.class.split('/').skip(1).collect::<Vec<_>>().join("/")), message: x.message });
+                }
+            }
             // non-trivial: at least one read ended strictly inside a packet
             let mut inside = 0usize;
             let mut consumed = vec![0usize; a.conns.len()];
